@@ -39,10 +39,10 @@ func TestMain(m *testing.M) {
 
 // Feat is the generated registry / client configuration.
 type Feat struct {
-	TagDelete    bool  `json:"tag_delete"`     // registry implements DELETE /manifests/<tag>
-	TagPage      int   `json:"tag_page"`       // server-side cap of the tag-list page size (0 = none)
-	HeadNoDigest bool  `json:"head_no_digest"` // manifest HEAD answers without Docker-Content-Digest
-	Cache        bool  `json:"cache"`          // client-side manifest cache enabled
+	TagDelete    bool  `json:"tag_delete"`       // registry implements DELETE /manifests/<tag>
+	TagPage      int   `json:"tag_page"`         // server-side cap of the tag-list page size (0 = none)
+	HeadNoDigest bool  `json:"head_no_digest"`   // manifest HEAD answers without Docker-Content-Digest
+	Cache        bool  `json:"cache"`            // client-side manifest cache enabled
 	Delays       []int `json:"delays,omitempty"` // request latency plan in microseconds (cyclic)
 }
 
@@ -925,45 +925,50 @@ func own(sym string, isOwn bool) string {
 
 // ---- root-cause attribution for layouts -----------------------------------------
 
-// diagnose names the root cause of a violation seen after step s on a layout when
-// the raw index before / after the step shows one of the specific write-path
-// behaviours; otherwise the generic signature stays.
-func diagnose(s Step, pre, post rawIndex, v *evid.Violation) *evid.Violation {
-	steps := []Step{s}
-	if s.Op == "batch" {
-		steps = s.Batch
-	}
-	for _, st := range steps {
-		switch {
-		case st.Op == "put" && st.ByDigest:
-			if pre.tagged() != post.tagged() {
-				return evid.V("layout-digest-push-adds-tagged-entry", "%s changed the tagged entries of index.json from %s to %s (a manifest object fetched from a tagged reference carries the "+
-					"org.opencontainers.image.ref.name annotation of its source index entry in its descriptor, and a push by digest keeps it) — then: %s", describe(st), pre, post, v.Msg)
+// diagnose names the root cause of a violation seen after step st on a layout when
+// the raw index before / after shows one of the specific write-path behaviours;
+// otherwise the generic signature stays. exact = pre and post are the states
+// immediately around st alone (false for a batch that ran concurrently, where the
+// intermediate states are not observable).
+func diagnose(st Step, pre, post rawIndex, exact bool, v *evid.Violation) *evid.Violation {
+	switch {
+	case st.Op == "put" && st.ByDigest:
+		if exact && st.Src != "" && pre.tagged() != post.tagged() {
+			return evid.V("layout-digest-push-adds-tagged-entry", "%s changed the tagged entries of index.json from %s to %s (a manifest object fetched from a tagged reference carries the "+
+				"org.opencontainers.image.ref.name annotation of its source index entry in its descriptor, and a push by digest keeps it) — then: %s", describe(st), pre, post, v.Msg)
+		}
+	case (st.Op == "put" && !st.ByDigest) || st.Op == "tagdel":
+		t := Tags[st.Tag]
+		fullPre, fullPost, barePre, barePost := 0, 0, 0, 0
+		for _, en := range pre.forTag(t) {
+			if en.Full {
+				fullPre++
+			} else {
+				barePre++
 			}
-		case (st.Op == "put" && !st.ByDigest) || st.Op == "tagdel":
-			t := Tags[st.Tag]
-			fullPre, fullPost := 0, 0
-			for _, en := range pre.forTag(t) {
-				if en.Full {
-					fullPre++
+		}
+		for _, en := range post.forTag(t) {
+			if en.Full {
+				fullPost++
+			} else {
+				barePost++
+			}
+		}
+		if fullPre > 0 && fullPost > 0 {
+			return evid.V("layout-fullname-entry-ignored-by-write", "%s on a layout whose index.json names the tag with a full image name (ref.name \"<name>:%s\", as other tools write it): "+
+				"the client lists and resolves that tag, but the write path matches ref.name exactly, so the entry is neither replaced nor removed; index %s -> %s — then: %s", describe(st), t, pre, post, v.Msg)
+		}
+		if st.Op == "tagdel" && barePre >= 2 && barePost >= 1 && barePost < barePre {
+			adjacent := false
+			for i := 0; i+1 < len(pre.Entries); i++ {
+				if pre.Entries[i].Name == t && pre.Entries[i+1].Name == t {
+					adjacent = true
 				}
 			}
-			for _, en := range post.forTag(t) {
-				if en.Full {
-					fullPost++
-				}
-			}
-			if fullPre > 0 && fullPost > 0 {
-				return evid.V("layout-fullname-entry-ignored-by-write", "%s on a layout whose index.json names the tag with a full image name (ref.name \"<name>:%s\", as other tools write it): "+
-					"the client lists and resolves that tag, but the write path matches ref.name exactly, so the entry is neither replaced nor removed; index %s -> %s — then: %s", describe(st), t, pre, post, v.Msg)
-			}
-			if st.Op == "tagdel" && len(post.forTag(t)) > 0 {
-				for i := 0; i+1 < len(pre.Entries); i++ {
-					if pre.Entries[i].Name == t && pre.Entries[i+1].Name == t {
-						return evid.V("layout-tagdelete-skips-adjacent-duplicate", "%s on an index with two adjacent entries for that tag removes only the first (delete inside a range over the same slice): "+
-							"index %s -> %s — then: %s", describe(st), pre, post, v.Msg)
-					}
-				}
+			// in a concurrent batch another delete may have made the entries adjacent first
+			if adjacent || !exact {
+				return evid.V("layout-tagdelete-skips-adjacent-duplicate", "%s on an index with several entries for that tag removed some but not all of them (two adjacent entries: the delete inside a "+
+					"range over the same slice skips the one that slides into the freed position): index %s -> %s — then: %s", describe(st), pre, post, v.Msg)
 			}
 		}
 	}
@@ -1110,16 +1115,9 @@ func check(c Case, ev *evid.Collector) (viol *evid.Violation) {
 	}
 
 	for i, s := range c.Hist {
-		pre := e.prevRaw
-		if e.lay {
-			pre = readRawIndex(e.dir)
-		}
 		v := e.step(s)
 		if v != nil && strings.HasPrefix(v.Sig, "harness-") {
 			return finish(v)
-		}
-		if v != nil && e.lay {
-			v = diagnose(s, pre, readRawIndex(e.dir), v)
 		}
 		if v != nil {
 			v.Msg = fmt.Sprintf("step %d (%s): %s", i, describe(s), v.Msg)
@@ -1151,13 +1149,13 @@ func check(c Case, ev *evid.Collector) (viol *evid.Violation) {
 // result and verifies the whole state.
 func (e *env) step(s Step) *evid.Violation {
 	if s.Op != "batch" {
-		return e.plain(s, true)
+		return e.diagnosed(s)
 	}
 	if !commute(e.mod, s.Batch, e.lay) {
 		// made total: operations that do not commute in this state are issued one after the other
 		e.class("batch:sequential-fallback")
 		for _, b := range s.Batch {
-			if v := e.plain(b, true); v != nil {
+			if v := e.diagnosed(b); v != nil {
 				return v
 			}
 		}
@@ -1166,6 +1164,22 @@ func (e *env) step(s Step) *evid.Violation {
 	e.ntConc = true
 	e.class(fmt.Sprintf("batch:concurrent-%d", len(s.Batch)))
 	pre := e.mod.clone()
+	preRaw := rawIndex{}
+	if e.lay {
+		preRaw = readRawIndex(e.dir)
+	}
+	diag := func(v *evid.Violation) *evid.Violation {
+		if !e.lay || strings.HasPrefix(v.Sig, "batch:harness-") {
+			return v
+		}
+		post := readRawIndex(e.dir)
+		for _, b := range s.Batch {
+			if d := diagnose(b, preRaw, post, false, v); d != v {
+				return d
+			}
+		}
+		return v
+	}
 	res := make([]opResult, len(s.Batch))
 	var wg sync.WaitGroup
 	start := make(chan struct{})
@@ -1189,17 +1203,31 @@ func (e *env) step(s Step) *evid.Violation {
 		ex := apply(e.mod, b)
 		if res[i].viol != nil {
 			res[i].viol.Sig = "batch:" + res[i].viol.Sig
-			return res[i].viol
+			return diag(res[i].viol)
 		}
 		if v := judgeResult(b, ex, res[i].err); v != nil {
 			v.Sig = "batch:" + v.Sig
-			return v
+			return diag(v)
 		}
 	}
 	if sym, msg := e.verify("", ""); sym != "" {
-		return evid.V("batch:"+sym, "after the concurrent batch: %s", msg)
+		return diag(evid.V("batch:"+sym, "after the concurrent batch: %s", msg))
 	}
 	return nil
+}
+
+// diagnosed runs one plain step and attributes a violation on a layout to its
+// root cause where the raw index immediately before / after shows it.
+func (e *env) diagnosed(s Step) *evid.Violation {
+	if !e.lay {
+		return e.plain(s, true)
+	}
+	pre := readRawIndex(e.dir)
+	v := e.plain(s, true)
+	if v == nil || strings.HasPrefix(v.Sig, "harness-") {
+		return v
+	}
+	return diagnose(s, pre, readRawIndex(e.dir), true, v)
 }
 
 // note records evidence classes of a step about to be applied to mod.
